@@ -144,7 +144,7 @@ func vfC30Data(rt *rapid.T, label string, wbuf int, big bool) []byte {
 	if rapid.IntRange(0, 15).Draw(rt, label+"_edge") == 0 {
 		n = rapid.SampledFrom([]int{65535, 65536, 65537, 65535 - 14, 70000}).Draw(rt, label+"_n64")
 	}
-	if big && rapid.IntRange(0, 40).Draw(rt, label+"_big") == 0 {
+	if big && rapid.IntRange(0, 119).Draw(rt, label+"_big") == 0 {
 		n = rapid.IntRange(100000, 300000).Draw(rt, label+"_nbig")
 	}
 	if n < 0 {
